@@ -1,6 +1,7 @@
 package c04
 
 import (
+	"regexp"
 	"encoding/json"
 	"fmt"
 	"sort"
@@ -300,7 +301,13 @@ func check(c Case) (o pbt.Outcome) {
 			continue
 		}
 		if r.Panic != "" {
-			o.Fail("C04|panic|"+panicClass(r.Panic)+"|"+planShape(doc, call), "generated client/server panicked: %s\n  call: %s", r.Panic, js(call))
+			site := r.PanicSite
+			if site == "" {
+				site = planShape(doc, call)
+			}
+			site = regexp.MustCompile(`\(\*?[A-Za-z0-9_]+\)`).ReplaceAllString(site, "(T)")
+			site = regexp.MustCompile(`bindParam\w+`).ReplaceAllString(site, "bindParam*")
+			o.Fail("C04|panic|"+panicClass(r.Panic)+"|"+site, "generated client/server panicked: %s (in %s)\n  call: %s", r.Panic, r.PanicSite, js(call))
 			continue
 		}
 		if r.Client == nil || r.Client.Unknown {
@@ -532,6 +539,10 @@ func errClass(m string) string {
 		return "404"
 	case strings.Contains(m, "(status 500)"):
 		return "500"
+	}
+	// "[POST /a/{b}][422] opName default ..." : the client's typed default-response error
+	if mm := regexp.MustCompile(`^\[[A-Z]+ [^\]]*\]\[(\d+)\]`).FindStringSubmatch(m); mm != nil {
+		return mm[1] + " (typed default response)"
 	}
 	if len(m) > 50 {
 		m = m[:50]
